@@ -2118,6 +2118,14 @@ func (c *Conn) handleChangeCipherSpecRecord(
 		return false
 	}
 
+	if prepared.header.Epoch != 0 {
+		// Record protection passes ChangeCipherSpec through without authenticating
+		// it, which is only sound for the handshake's own epoch-0 message. Inside a
+		// protected epoch such a record proves nothing: drop it instead of letting
+		// it advance the epoch and consume a replay slot.
+		return false
+	}
+
 	newRemoteEpoch := prepared.header.Epoch + 1
 	c.log.Tracef("%s: <- ChangeCipherSpec (epoch: %d)", srvCliStr(common.IsClient), newRemoteEpoch)
 	if common.RemoteEpoch()+1 != newRemoteEpoch {
